@@ -164,9 +164,12 @@ fn run_explore<const B: u32>(label: &str, kind: Kind, timeout_ms: u64, out: &mut
         }
     }
     engine::init(kind, timeout_ms, Limits { max_decisions: 4096, max_paths: 100_000, max_ops: 50_000_000 }, HashMode::Uniform, IoCfg::default());
+    // an exploration that is still running at the end of its slice of the time box is cut there
+    // (at least 20 s are granted to one started late); what is cut is counted as skipped, never as decided
+    let cut = out.deadline.map(|d| d.max(std::time::Instant::now() + std::time::Duration::from_secs(20)));
     with(|c| {
         c.width = B as u8;
-        c.job_deadline = None;
+        c.job_deadline = cut;
     });
     let t0 = std::time::Instant::now();
     let ex = explore(|| {
@@ -197,12 +200,17 @@ fn run_explore<const B: u32>(label: &str, kind: Kind, timeout_ms: u64, out: &mut
                     }
                 }
             }
+            PathEnd::Abort(engine::Abort::Truncated(t)) if t.contains("job time cap") => out.skipped_by_time_box += 1,
             PathEnd::Abort(a) => out.inconclusive.push(format!("{} w{}: {:?}", label, B, a)),
             PathEnd::Panic(s) => out.violations.push(format!("{} w{}: panic in the real code: {}", label, B, s)),
         }
     }
     if ex.dropped_items > 0 {
-        out.inconclusive.push(format!("{} w{}: {} work items dropped by the path cap", label, B, ex.dropped_items));
+        if cut.map_or(false, |d| std::time::Instant::now() > d) {
+            out.skipped_by_time_box += ex.dropped_items as u64;
+        } else {
+            out.inconclusive.push(format!("{} w{}: {} work items dropped by the path cap", label, B, ex.dropped_items));
+        }
     }
     out.stats.add(&engine::take_stats());
 }
